@@ -62,6 +62,8 @@ NOALLOC = [
     ('k_na_unarmor_3', 'messages/mod.rs', ['C18'], 'bounded', 'no-allocator unarmor, 3 characters, all contents and fill counts, vs the same reference as the std build', 'quick', 600),
     ('k_na_unarmor_5', 'messages/mod.rs', ['C18'], 'bounded', 'no-allocator unarmor, 5 characters', 'quick', 600),
     ('k_na_unarmor_8', 'messages/mod.rs', ['C18'], 'bounded', 'no-allocator unarmor, 8 characters', 'thorough', 900),
+    ('k_na_text_2', 'messages/mod.rs', ['C18', 'C13'], 'bounded', 'no-allocator text decoding: 2 characters, every bit offset, all contents, vs the same reference as the std build', 'quick', 1200),
+    ('k_na_extend_full', 'sentence.rs', ['C18', 'C01'], 'bounded', 'no-allocator reassembly capacity: extending a full 384-byte buffer is an error, not a panic; one concrete state', 'quick', 1200),
     ('k_na_text_21', 'messages/mod.rs', ['C18', 'C01'], 'bounded', 'no-allocator text capacity: a 21-character text field is an error, not a panic; one concrete input', 'quick', 600),
 ]
 
